@@ -47,6 +47,8 @@ def strings(maxlen):
 
 KIND_VALUES = {"str": "s p'q\"$a", "int": I(7), "float": {"f": "1.5"}, "bool": True, "null": None, "list": L(I(1), "x y"), "tuple": T(("q", I(1)))}
 KIND_RENDER = {"str": "s p'q\"$a", "int": "7", "float": "1.5", "bool": "true"}
+# a constraint value is one more kind of field that is skipped (env) / left out (flags); only as a field, not as a list item
+FIELD_KIND_VALUES = dict(KIND_VALUES, constraint={"k": 1})
 
 
 def string_cases(strs):
@@ -71,16 +73,18 @@ def string_cases(strs):
 
 
 def field_order_cases(maxfields):
-    kinds = list(KIND_VALUES)
+    kinds = list(FIELD_KIND_VALUES)
     for n in range(1, maxfields + 1):
         for combo in itertools.product(kinds, repeat=n):
+            if n == maxfields and "constraint" in combo and n > 3:
+                continue        # the constraint kind in tuples of up to 3 fields
             names = ["F%d" % i for i in range(n)]
-            w = T(*[(nm, KIND_VALUES[k]) for nm, k in zip(names, combo)])
+            w = T(*[(nm, FIELD_KIND_VALUES[k]) for nm, k in zip(names, combo)])
             vars_ = {nm: KIND_RENDER[k] for nm, k in zip(names, combo) if k in KIND_RENDER}
             unset = [nm for nm, k in zip(names, combo) if k not in KIND_RENDER]
             yield ("env-fields:" + ",".join(combo), "env", w, {"vars": vars_, "unset": unset})
             fn = ["f%d" % i for i in range(n)]
-            w2 = T(*[(nm, KIND_VALUES[k]) for nm, k in zip(fn, combo)])
+            w2 = T(*[(nm, FIELD_KIND_VALUES[k]) for nm, k in zip(fn, combo)])
             argv = []
             for nm, k in zip(fn, combo):
                 if k in KIND_RENDER:
